@@ -572,3 +572,7 @@ def run(ctx):
     # (shared with C08.R7): a detour through the event set lets what is emitted after it for the same instant overtake it
     from .C08 import r7_delayed_send
     r7_delayed_send(ctx, rule='C03.R6')
+    # (R7) what a handler emitted is scheduled before anything buf_process itself schedules (the restart event of the same instant):
+    # shared with C09.R3
+    from .C09 import flush_before_shutdown
+    flush_before_shutdown(ctx, 'C03.R7')
